@@ -1812,3 +1812,23 @@ Example initialize_before_tail_loses_session :
   owner (st_kv (apply_log rf_cfg init_state tail)) rf_ka = Some 0%Z /\
   leader_init dec (apply_log rf_cfg init_state tail) 5000 = Ok [(0%Z, mkSess 200 5000)].
 Proof. vm_compute. repeat split. Qed.
+
+(* Each restored session runs with the metadata decoded from ITS OWN key: the timeout of session z in the new manager
+   is what [meta_dec] yields on the value stored under SessionKey(z) (given that no other listed key denotes the same id).
+   [found_in] already ties the timeout to a key that parses to z; this is the reading the harness checks per session. *)
+Theorem leader_init_own_metadata meta_dec st now l z ss :
+  leader_init meta_dec st now = Ok l -> In (z, ss) l ->
+  (forall y, In y (db_list st session_lo session_hi) -> key_to_id y = Some z -> y = session_key z) ->
+  exists e, kv_get (st_kv st) (session_key z) = Some (VRecord e) /\ meta_dec (e_value e) = Some (ss_timeout ss) /\ ss_armed ss = now.
+Proof.
+  intros H Hin Hu. destruct (leader_init_sound meta_dec st now l z ss H Hin) as [Ha [y [e [Hy [Hk [Hg Hm]]]]]].
+  rewrite (Hu y Hy Hk) in Hg. exists e. split; [exact Hg|]. split; [exact Hm|exact Ha].
+Qed.
+
+(* two sessions with different timeouts are restored each with its own (non-vacuity, and the shape of the defect a
+   shared decoding buffer would introduce) *)
+Example leader_init_two_timeouts :
+  let dec := fun b : bytes => match b with [t] => Some t | _ => None end in
+  let log := [(create_request 0 [200%N], 0%Z, 10%N); (create_request 1 [30%N], 1%Z, 11%N)] in
+  leader_init dec (apply_log rf_cfg init_state log) 7000 = Ok [(1%Z, mkSess 30 7000); (0%Z, mkSess 200 7000)].
+Proof. vm_compute. reflexivity. Qed.
